@@ -22,6 +22,48 @@ func init() {
 // sets ok=false.
 func flagFuncs(p *Program) map[*ssa.Function]bool {
 	out := map[*ssa.Function]bool{}
+	for n := -1; n != len(out); {
+		n = len(out)
+		flagFuncsPass(p, out)
+	}
+	return out
+}
+
+// flagDerived: the Boolean v is built (through phis, && / ||, negation and
+// single-store cells) from the flag of a flag function or from a constant
+// false on some path.
+func flagDerived(v ssa.Value, out map[*ssa.Function]bool, d int) bool {
+	if d > 6 {
+		return false
+	}
+	v = resolveCell(v)
+	switch x := v.(type) {
+	case *ssa.Const:
+		b, ok := constBool(x)
+		return ok && !b
+	case *ssa.Phi:
+		for _, e := range x.Edges {
+			if flagDerived(e, out, d+1) {
+				return true
+			}
+		}
+	case *ssa.BinOp:
+		return flagDerived(x.X, out, d+1) || flagDerived(x.Y, out, d+1)
+	case *ssa.UnOp:
+		if x.Op == token.NOT {
+			return flagDerived(x.X, out, d+1)
+		}
+	case *ssa.Extract:
+		if c, ok := x.Tuple.(*ssa.Call); ok {
+			if cal := staticCallee(c); cal != nil && out[cal] && x.Index == cal.Signature.Results().Len()-1 {
+				return true
+			}
+		}
+	}
+	return false
+}
+
+func flagFuncsPass(p *Program, out map[*ssa.Function]bool) {
 	for _, f := range p.Funcs {
 		res := f.Signature.Results()
 		n := res.Len()
@@ -51,15 +93,20 @@ func flagFuncs(p *Program) map[*ssa.Function]bool {
 				}
 			}
 			if _, isConst := r.Results[n-1].(*ssa.Const); !isConst {
-				// computed flag (e.g. `return x, t.root != nil`)
-				hasFalse = true
+				// computed flag (e.g. `return x, t.root != nil`): every such
+				// function of the baseline was confirmed by reading to be a
+				// validity flag; in a helper introduced later a computed
+				// Boolean result counts only when it derives from a validity
+				// flag (any other Boolean — hasZ, isClosed — is ordinary data)
+				if !isNewHelper(f) || flagDerived(r.Results[n-1], out, 0) {
+					hasFalse = true
+				}
 			}
 		}
 		if hasFalse {
 			out[f] = true
 		}
 	}
-	return out
 }
 
 // resolveCell follows loads of single-store cells (locals and captured
